@@ -68,8 +68,10 @@ def isFree (s : Slots β) (i : Nat) : Bool :=
   | some none => true
   | _ => false
 /-- concatenation of `f` over the occupied slots -/
-def gather {γ : Type} (f : β → List γ) (s : Slots β) : List γ :=
-  s.flatMap (fun o => match o with | none => [] | some v => f v)
+def optList {γ : Type} (f : β → List γ) : Option β → List γ
+  | none => []
+  | some v => f v
+def gather {γ : Type} (f : β → List γ) (s : Slots β) : List γ := s.flatMap (optList f)
 end Slots
 
 structure AStore (α : Type) where
